@@ -1134,15 +1134,18 @@ class MorphFactory:
         Returns:
             True if generators are dependent.
         """
-        self.legs = legs.copy()
+        self.is_check = True
         for g in generators:
+            # every generator is tested against the untouched canonical graph
+            self.legs = [leg.copy() for leg in legs]
             try:
                 self._pipeline(g)
-            except AppendedException:
-                self.legs = legs.copy()
-                return False
-            except Exception:
+            except DependentException:
                 continue
+            except Exception:
+                pass
+            self.legs = legs.copy()
+            return False
 
         self.legs = legs.copy()
         return True
